@@ -2,6 +2,7 @@ import GramModel.Lemmas.Eval
 import GramModel.Check
 import GramModel.Oracle
 import GramModel.Lemmas.Progress
+import GramModel.Typing
 
 /-!
 # C01 — accepted programs never get stuck (progress)
@@ -82,3 +83,23 @@ theorem C01_typed_progress : C01_typed_progress_stmt := by
       rcases C01_typed_stuck_only_var_or_div f Γ Δ t T r hf h hr with e | e
       · exact Or.inr (Or.inr (Or.inl (e ▸ hr)))
       · exact Or.inr (Or.inr (Or.inr (e ▸ hr)))
+
+/-! ## Progress for the declarative rules, and type soundness of the checker model on hole-free programs -/
+
+/-- **Progress under the declarative rules.**  A closed hole-free term that is well typed under the rules of
+`Typing.lean` is a value, or takes a step, or is stuck at a variable of a definition group that is not
+available yet (the recorded finding KF-order), or at a division by zero — never for a kind reason. -/
+def C01_declarative_progress_stmt : Prop :=
+  ∀ (t T : Tm), t.holeFree = true → HasType [] [] t T →
+    isValue t = true ∨ (∃ t', Step t t') ∨ stuckReason t = some .variable ∨ stuckReason t = some .divZero
+
+/-- **Type soundness of gram's checker model on fully annotated programs.**  If the model of the checker
+accepts a closed hole-free program without error, then however many steps the program is run, the term
+reached is never stuck for a kind reason (call of a non-function, arithmetic/comparison/branching on a value
+of the wrong kind, a hole): it is a value, or can step, or is stuck at a not-yet-available definition
+(KF-order) or a division by zero. -/
+def C01_checker_sound_run_stmt : Prop :=
+  ∀ (fuel n : Nat) (t e ty : Tm) (s : St), t.holeFree = true → wellScoped 0 t = true →
+    inferS fuel t {} = .ok (e, ty) s → s.nerrs = 0 →
+    let r := evalFuel n t
+    isValue r = true ∨ (∃ r', Step r r') ∨ stuckReason r = some .variable ∨ stuckReason r = some .divZero
